@@ -104,7 +104,14 @@ func (f *fakeTr) Write(b []byte) error {
 }
 
 func (f *fakeTr) Close() error                                           { return f.CloseWithStatus(transport.CloseStatusNormal) }
-func (f *fakeTr) CloseWithStatus(transport.CloseStatus) error            { vsched.Yield("h:fake-close"); f.closed = true; return nil }
+func (f *fakeTr) CloseWithStatus(transport.CloseStatus) error {
+	vsched.Yield("h:fake-close")
+	if !f.closed && f.readErr == nil && !f.w.closed {
+		f.w.healthyClosed = append(f.w.healthyClosed, f.idx)
+	}
+	f.closed = true
+	return nil
+}
 func (f *fakeTr) RxBytesCounterValue() uint64                            { return 0 }
 func (f *fakeTr) TxBytesCounterValue() uint64                            { return 0 }
 func (f *fakeTr) AsUnreliable() (transport.UnreliableTransport, bool)    { return nil, false }
@@ -139,6 +146,7 @@ type world struct {
 	clock    int
 	exhausted bool
 	issued   int
+	healthyClosed []int // connections the library closed although no failure was injected on them and Close was not called
 }
 
 func (w *world) dial(cfg transport.DialConfig) (transport.Transport, error) {
@@ -310,6 +318,9 @@ func run(sc vlib.Scenario, cfg vsched.Config) (*vsched.Result, vlib.Verdict) {
 		if (i > 0) != d.Reconnect {
 			v.Fail("C18.redial", "reconnect-flag", "dial %d has Reconnect=%v", i, d.Reconnect)
 		}
+	}
+	if len(w.healthyClosed) > 0 {
+		v.Fail("C18.redial", fmt.Sprintf("healthy-connection-closed/dev=%v", dev), "the transport closed connection(s) %v although they had not failed and Close had not been called (%d failures injected, %d dials)", w.healthyClosed, w.failures, len(w.dials))
 	}
 	// every accepted write exactly once, in exactly one incarnation
 	count := map[string]int{}
